@@ -11,7 +11,9 @@ Inductive case :=
 | NotFoundCase (status : Z) (calls : Z)    (* unknown path through the server's mux *)
       (* a streaming request body of [want] well-formed frames followed by a well-formed end (ok) or by a
          malformed frame, read to the end by the handler: messages received, HTTP status, trailer code *)
-| SBody (ok : bool) (want seen : Z) (status : Z) (trailer_code : Z).
+| SBody (ok : bool) (want seen : Z) (status : Z) (trailer_code : Z)
+      (* a comparison made on the Go side (replies of overlapping calls) *)
+| GoSide (what : string) (ok : bool).
 
 Definition oz_eqb := option_eqb Z.eqb.
 
@@ -32,6 +34,7 @@ Definition check_case (k : case) : bool :=
       end
   | NotFoundCase st calls => (st =? 404) && (calls =? 0)
   | SBody ok want seen st tc => (st =? 200) && (seen =? want) && (if ok then tc =? 0 else negb (tc =? 0) && (0 <? tc))
+  | GoSide _ ok => ok
   end.
 
 (* the property on the observation, from the request alone *)
@@ -53,4 +56,5 @@ Definition oracle_case (k : case) : bool :=
             (tc =? (if h =? 0 then 0 else if h =? 0 then 13 else h)))
   | NotFoundCase st calls => (st =? 404) && (calls =? 0)
   | SBody ok want seen st tc => (seen <=? want) && (if ok then (tc =? 0) && (seen =? want) else 0 <? tc)
+  | GoSide _ ok => ok
   end.
